@@ -141,6 +141,26 @@ def run(tier):
     wasm = [("k:" + name, src) for name, src in GM.corpus()]
     for j, (ty, val) in enumerate([("[]char8", '"hello"'), ("[]i32", "[1, 2, 3]"), ("[]u8", "[7u8]"), ("[]char8", '""')]):
         wasm.append(("z%d" % j, "fn count(x: %s) -> usize\n{\n\treturn: |x|\n}\npub extern fn start()\n{\n\tvar n = count(%s);\n\tvar a: [4]i32 = [1, 2, 3, 4];\n\tvar i: usize = |a| - 1;\n\tvar e = a[i];\n\tvar s: usize = |:[4]i32|;\n}\n" % (ty, val)))
+    # casts between usize and every integer type on values known at compile time (sizes, lengths, constants,
+    # literals), inside structure and array literals, constants, arguments and returned values: on wasm32 usize is
+    # 32 bits wide, so `usize as u64` is a real conversion there (a cast taken for a no-op leaves an i32 in an i64 slot)
+    kc = 0
+    for T in ("u64", "i64", "u32", "i32", "u16", "u8", "u128", "i128", "usize"):
+        for X in ("|:Payload|", "ENTRIES", "12usize", "|table|", "|:[3]&u8|", "(ENTRIES + 1)"):
+            for T2, X2 in ((T, X), ("usize", "(%s as %s)" % (X, T) if T != "usize" else X)):
+                if T2 == "usize" and T == "usize" and X2 == X: cast = X
+                elif T2 == "usize": cast = "%s as usize" % X2
+                else: cast = "%s as %s" % (X, T)
+                head = ("struct Payload\n{\n\ta: u64,\n\tb: [3]u64,\n}\nconst ENTRIES: usize = 12;\nstruct Header\n{\n\tmagic: u32,\n\tsize: %s,\n\tn: %s,\n}\n"
+                        "fn take(x: %s) -> %s\n{\n\treturn: x\n}\n") % (T2, T2, T2, T2)
+                ccast = cast.replace("|table|", "5usize")
+                # one context per program: a context that makes LLVM stop the compiler must not hide the silent ones
+                for ctx in ("\tvar h = Header { magic: 7, size: %s, n: %s };\n" % (cast, cast), "\tvar arr: [2][2]%s = [[%s, %s], [%s, %s]];\n" % (T2, cast, cast, cast, cast),
+                            "\tvar r = take(%s);\n" % cast, "\tvar q: %s = %s;\n" % (T2, cast), "\tvar hs: [2]Header = [Header { magic: 1, size: %s, n: 2 }, Header { magic: 2, size: 3, n: %s }];\n" % (cast, cast),
+                            None):
+                    if ctx is None: src = head + "const C: %s = %s;\nconst D: [2]%s = [%s, %s];\npub extern fn start()\n{\n\tvar q: %s = C;\n}\n" % (T2, ccast, T2, ccast, ccast, T2)
+                    else: src = head + "pub extern fn start()\n{\n\tvar table: [5]u8 = [1, 2, 3, 4, 5];\n" + ctx + "}\n"
+                    wasm.append(("wc%d" % kc, src)); kc += 1
     wasm += others[: (150 if tier == "quick" else 5000)]
     impl3 = C.run_harness("tools-wasm", wasm, ck.work + "/wasm", timeout=1800)
     acc = 0
